@@ -16,6 +16,9 @@ type RandGen interface {
 	Next(rng *rand.Rand, step int) Op
 }
 
+// PreHook, when set, sees the loaded edges before the walk starts.
+var PreHook func(edges []*Edge)
+
 // MainHook, when set, runs after a walk / replay finished (before the process exits).
 var MainHook func()
 
@@ -49,6 +52,9 @@ func Main(component string, newAdapter func() Adapter, gen RandGen) {
 		if err != nil || len(es) == 0 {
 			fmt.Fprintf(os.Stderr, "cannot load edges from %s: %v (n=%d)\n", *edges, err, len(es))
 			os.Exit(2)
+		}
+		if PreHook != nil {
+			PreHook(es)
 		}
 		g := BuildGraph(es)
 		tf, err := os.Create(*out + "/walk_traces.ndjson")
